@@ -19,6 +19,8 @@
     (the manual: "an n must exist such that |b + n d - c| <= 0.001")        → `deltaFromArgVals`
   * C11-07 (`rtosc_skip_next_printed_arg`): "..." behind a repetition `nxa` is a syntax error
     (the manual: "Ranges may not overlap, i.e. no 2x1 ... 3")               → `ellipsisTail`
+  * C11-08 (`scanf_fmtstr`): the numeric word also ends at the comment sign '%' (`42%c`), like
+    every other kind of value                                → C10's `numWordLen` (Pretty/Lex.lean)
   * float / double range arithmetic (`C11Float.lean`) instead of `Err.unmodelled`.
 
   Only the functions on the path of these changes are written again (the recursive cores
